@@ -16,6 +16,7 @@ mod codec;
 mod codec18;
 mod codec18_der;
 mod pdus;
+mod csspgate;
 
 use std::io::{self, BufRead, Write};
 
@@ -49,6 +50,7 @@ fn dispatch(op: &str, args: &[&str]) -> String {
         "cr" => pdus::op_cr(args),
         "core" => pdus::op_core(args),
         "pdus" => pdus::op_pdus(args),
+        "csspgate" => csspgate::op_cssp(args),
         _ => format!("unknown-op:{}", op),
     }
 }
